@@ -83,9 +83,21 @@ func (c *Ctx) storeSites() []ssa.Instruction {
 	var out []ssa.Instruction
 	for fn := range c.A.Reach {
 		instrsOf(fn, func(in ssa.Instruction) {
-			if c.An.CallsRole(in, "storeResp") {
-				out = append(out, in)
+			if !c.An.CallsRole(in, "storeResp") {
+				return
 			}
+			// only stores of an origin response: the write-back of a freshened stored response after a 304 (C08.1)
+			// is not a storability decision
+			_, args := recvAndArgs(callOf(in))
+			for _, a := range args {
+				if isHTTPResponsePtr(a.Type()) {
+					k := c.An.ResponseKinds(a)
+					if k["stored"] && !k["upstream"] {
+						return
+					}
+				}
+			}
+			out = append(out, in)
 		})
 	}
 	sort.Slice(out, func(i, j int) bool { return c.P.InstrPos(out[i]) < c.P.InstrPos(out[j]) })
